@@ -2,6 +2,7 @@ package smtp
 
 import (
 	"io"
+	"strconv"
 	"time"
 )
 
@@ -925,4 +926,127 @@ func verif_C11_size_boundary() {
 		verifReach("C11.size-refused")
 		verifAssert(reps[2].code/100 == 5 && be.count("Mail") == 0, "C11.size-refused-backend-not-called")
 	}
+}
+
+// verif_C11_case_equiv: command verbs, parameter keywords and enumerated
+// values are case-insensitive (RFC 5321 sections 2.4 and 4.1.1.1). A conversation
+// using every parameter the server knows is sent as written, with all keywords
+// in lower case, and in alternating case; addresses and free-form values keep
+// their case. Replies have the same codes, the backend sees the same calls with
+// the same arguments and options, the message is the same.
+func verif_C11_case_equiv() {
+	type line struct{ up, rest string } // up: case-insensitive part, rest: case-sensitive part (appended as is)
+	conv := [][]line{
+		{{"EHLO ", "Client.Example"}},
+		{{"MAIL FROM:", "<Sender@V.example>"}, {" SIZE=", "10"}, {" BODY=8BITMIME", ""}, {" SMTPUTF8", ""}, {" RET=HDRS", ""}, {" ENVID=", "Env-1"}, {" AUTH=", "Who@V"}},
+		{{"RCPT TO:", "<Rcpt@V.example>"}, {" NOTIFY=SUCCESS,FAILURE", ""}, {" ORCPT=RFC822;", "Orig@V"}},
+		{{"RCPT TO:", "<Two@V.example>"}, {" NOTIFY=NEVER", ""}},
+		{{"NOOP", ""}},
+		{{"VRFY ", "x"}},
+		{{"DATA", ""}},
+		{{"", "Body Line\r\n."}},
+		{{"RSET", ""}},
+		{{"MAIL FROM:", "<>"}, {" BODY=BINARYMIME", ""}, {" REQUIRETLS", ""}},
+		{{"RCPT TO:", "<Three@V.example>"}, {" RRVS=", "2014-04-03T23:01:00Z"}},
+		{{"BDAT 2 LAST", ""}},
+	}
+	style := verifChoice(3)
+	fold := func(s string) string {
+		b := []byte(s)
+		for i, ch := range b {
+			lower := style == 1 || (style == 2 && i%2 == 1)
+			upper := style == 2 && i%2 == 0
+			if lower && ch >= 'A' && ch <= 'Z' {
+				b[i] = ch + 32
+			}
+			if upper && ch >= 'a' && ch <= 'z' {
+				b[i] = ch - 32
+			}
+		}
+		return string(b)
+	}
+	render := func(st int) string {
+		old := style
+		style = st
+		out := ""
+		for _, l := range conv {
+			for _, p := range l {
+				out += fold(p.up) + p.rest
+			}
+			out += "\r\n"
+			if l[0].up == "BDAT 2 LAST" {
+				out = out[:len(out)-2] + "\r\nhiQUIT\r\n"
+			}
+		}
+		style = old
+		return out
+	}
+	type obs struct {
+		codes  []int
+		calls  []string
+		bodies []string
+	}
+	run := func(in string) obs {
+		var o obs
+		be := &vbackend{authSession: true, mechs: []string{"PLAIN"}}
+		be.dataFn = func(_ *vsession, r io.Reader) error {
+			b, _ := verifReadAll(r, 4)
+			o.bodies = append(o.bodies, string(b))
+			return nil
+		}
+		s, _ := verifServer(be)
+		s.EnableSMTPUTF8, s.EnableREQUIRETLS, s.EnableBINARYMIME, s.EnableDSN, s.EnableRRVS = true, true, true, true, true
+		s.AllowInsecureAuth = true
+		vc, _, _ := verifServe(s, []byte(in), io.EOF)
+		reps, wf := verifParseReplies(vc.out)
+		verifAssert(wf, "C11.case-replies-wellformed")
+		for _, r := range reps {
+			o.codes = append(o.codes, r.code)
+		}
+		for _, e := range be.trace {
+			o.calls = append(o.calls, e.kind+" "+e.arg)
+		}
+		if be.lastSession != nil {
+			for _, m := range be.lastSession.mailOpts {
+				if m != nil {
+					a := "-"
+					if m.Auth != nil {
+						a = *m.Auth
+					}
+					o.calls = append(o.calls, "mailopts "+string(m.Body)+" "+strconv.FormatInt(m.Size, 10)+" "+strconv.FormatBool(m.UTF8)+" "+strconv.FormatBool(m.RequireTLS)+" "+string(m.Return)+" "+m.EnvelopeID+" "+a)
+				}
+			}
+			for _, r := range be.lastSession.rcptOpts {
+				if r != nil {
+					n := ""
+					for _, x := range r.Notify {
+						n += string(x) + ","
+					}
+					o.calls = append(o.calls, "rcptopts "+n+" "+string(r.OriginalRecipientType)+" "+r.OriginalRecipient+" "+strconv.FormatBool(r.RequireRecipientValidSince.IsZero()))
+				}
+			}
+		}
+		return o
+	}
+	ref := run(render(0))
+	got := run(render(style))
+	verifObserve("c11case", style, len(ref.codes), len(got.codes), len(ref.calls), len(got.calls))
+	// the reference conversation is accepted throughout
+	for _, c := range ref.codes {
+		verifAssert(c/100 == 2 || c == 354, "C11.case-reference-accepted")
+	}
+	verifAssert(len(ref.codes) == len(got.codes), "C11.case-same-reply-count")
+	if len(ref.codes) == len(got.codes) {
+		for i := range ref.codes {
+			verifAssert(ref.codes[i] == got.codes[i], "C11.case-same-reply-codes")
+		}
+	}
+	verifAssert(len(ref.calls) == len(got.calls), "C11.case-same-calls")
+	if len(ref.calls) == len(got.calls) {
+		for i := range ref.calls {
+			verifAssert(ref.calls[i] == got.calls[i], "C11.case-same-arguments-and-options")
+		}
+	}
+	verifAssert(len(ref.bodies) == 2 && len(got.bodies) == 2 && ref.bodies[0] == got.bodies[0] && ref.bodies[1] == got.bodies[1], "C11.case-same-messages")
+	verifReach("C11.case-end")
 }
